@@ -273,6 +273,12 @@ def _wiring(run, prog, cls):
 def _river(run, prog):
     cls = prog.find_class("RiverWrapper")
     run.need(cls is not None, "anchor class RiverWrapper vanished")
+    ri = prog.summarise(cls, "__init__")
+    sl = ri.fields.get("_seen_labels")
+    run.check(sl is not None and sl[0] == "new" and sl[2] == "set" and not sl[3], "RIVER", "labels-per-instance",
+              f"{ri.path}:{ri.fn.lineno}", "RiverWrapper.__init__", f"_seen_labels = {ir.show_nl(sl) if sl else 'not set in __init__'}",
+              "every RiverWrapper needs its own, initially empty, set of seen labels created in __init__ (a class-level set is "
+              "shared by all wrappers of the process)", "self._seen_labels = set() per instance")
     e = prog.summarise(cls, "_extend_dict")
     fq = "RiverWrapper._extend_dict"
     run.analysed_fn(fq)
